@@ -407,6 +407,18 @@ def limit_and_estimate(ip: str, fp: str, kind: int) -> bool:
     return abs(fix_number(s) - want) <= 1e-12 * max(1.0, want)
 
 
+def signed_and_integer_forms(ip: str, neg: bool, kind: int) -> bool:
+    """
+    pre: _digits(ip) and len(ip) <= 3 and (len(ip) == 1 or ip[0] != '0')
+    pre: 0 <= kind <= 3
+    post: __return__
+    """
+    base = ('-' if neg else '') + ip
+    s = [base, base + '(2)', base + '.', '<' + base][kind]
+    want = -int(ip) if neg else int(ip)
+    return fix_number(s) == want
+
+
 def blank_is_missing(n: int) -> bool:
     """
     pre: 0 <= n <= 0
@@ -428,7 +440,7 @@ def _notation_crosshair(case, tier, seed):
             ok = ns[fn](*args)
             return (not ok), '%s%r = %r' % (fn, args, ok)
         return f
-    return ch.crosshair_case(case.name, CH_MOD, {k: rp(k) for k in ('limit_and_estimate', 'blank_is_missing')},
+    return ch.crosshair_case(case.name, CH_MOD, {k: rp(k) for k in ('limit_and_estimate', 'signed_and_integer_forms', 'blank_is_missing')},
                              timeout_s=45 if tier == 'quick' else 150)
 
 
